@@ -667,7 +667,7 @@ func (g *Gen) expr(t Ty, d int) *Node {
 		return n
 	case TArr:
 		g.left--
-		switch g.R.Intn(7) {
+		switch g.R.Intn(8) {
 		case 0, 1:
 			n := g.R.Intn(4)
 			var es []*Node
@@ -698,6 +698,10 @@ func (g *Gen) expr(t Ty, d int) *Node {
 			return Arr(es...)
 		case 5:
 			return Begin(CallN("aset", g.expr(TArr, d-1), g.intLit(), g.expr(g.scalarTy(), d-1)), g.expr(TArr, d-1))
+		case 6:
+			if !g.Scopey {
+				return CallN("concat", g.expr(TArr, d-1), g.expr(TArr, d-1))
+			}
 		}
 		return CallN("array", g.expr(TInt, d-1), g.expr(TInt, d-1))
 	case TList:
@@ -881,6 +885,30 @@ func (p *Program) ShadowsSelfName() bool {
 		}
 	})
 	return found
+}
+
+// ConcatCount returns the number of syntactic uses of concat; OneArgConcat reports a (concat a) call.
+func (p *Program) ConcatCount() int {
+	c := 0
+	p.Walk(func(n *Node) {
+		if n.K == KVar && n.Name == "concat" {
+			c++
+		}
+	})
+	return c
+}
+
+func (p *Program) OneArgConcat() bool {
+	return p.Has(func(n *Node) bool {
+		return n.K == KCall && n.Kids[0].K == KVar && n.Kids[0].Name == "concat" && len(n.Kids) == 2
+	})
+}
+
+// ConcatOfConcatShape is the narrow shape of KNOWN_FINDINGS concat-aliasing: the array that is
+// concatenated onto can only have got its spare capacity from concat itself (no append in the program,
+// at least three uses of concat), or a one-argument concat (which shares its argument's storage).
+func (p *Program) ConcatOfConcatShape() bool {
+	return (p.AppendCount() == 0 && p.ConcatCount() >= 3) || p.OneArgConcat()
 }
 
 // AppendCount returns the number of syntactic uses of append.
